@@ -22,7 +22,9 @@ CLAIMED = {
             'TrajectoryStore.__init__: every load/store of active_in_thread; a with-Lock block is indivisible) are decided by '
             'z3 with symbolic thread ids and initial state (interference freedom), plus a sequential invariant '
             '(first owner set => active_in_thread == first owner) preserved by every call with any outcome, which gives '
-            'every history of constructor calls by induction. A refuted interference obligation is a schedule and is '
+            'every history of constructor calls by induction, and: the with-block counts as indivisible only if its context expression is one '
+            'class-level Lock() assigned nowhere else (stated as a clause: the Lock contract gives exclusion among holders of one object). '
+            'A refuted interference obligation is a schedule and is '
             'replayed on the real constructor with a sys.settrace line scheduler.',
             'atomicity granularity (one attribute load/store = one action), threading.Lock mutual exclusion, get_ident '
             'distinct per live thread; statements of __init__ that do not mention the shared attribute are abstracted '
@@ -35,7 +37,9 @@ CLAIMED = {
             'point of a load (validation rejection, each file-system lookup succeeding or failing, missing/invalid config '
             'file) is a path with the exceptional postcondition "_config is None afterwards". deep_update is proved per '
             'nesting level with the recursive call used by contract; the overlay order defaults<file<kwargs is proved on a '
-            'tree with one key per presence class; frozen=True is a class-body obligation plus an assignment obligation.',
+            'tree with one key per presence class, twice in a row for one file (a later load does not see an earlier load\'s keyword arguments; '
+            'memoised parsers hand out one object per argument tuple); '
+            'frozen=True is a class-body obligation plus an assignment obligation.',
             'pydantic validator sequencing / frozen semantics, tomllib, Path.exists by assumed contracts; key-uniformity of '
             'dict operations (one key per presence/type class represents all keys)',
             'contract-based deductive verification: AST->z3 VCs of the real source, sidecar contracts', 'DESIGN 2 C18'),
@@ -45,7 +49,8 @@ CLAIMED = {
             '(point = forward geodesic from the leg start at offset s - index[j]; end points exact; overstep continues the last '
             'geodesic; refusals exactly for the documented reasons; azimuth in [0,360); gc_distance = geodesic distance = track '
             'length, symmetric) are discharged by z3 for all coordinates and distances, each query preceded by an arbitrary '
-            'earlier query on the same object. The number of waypoints is bounded (2..4), everything else unbounded.',
+            'earlier query on the same object; the mission is made directly or by Mission.from_query_result. '
+            'The number of waypoints is bounded (2..4), everything else unbounded.',
             'pyproj.Geod by assumed contract (argument order lon,lat; d>=0; symmetry; fwd(p,az12,d)=q): geodesic truth itself is '
             'not proved; floats as reals; bisect_left by its counting definition',
             'contract-based deductive verification: AST->z3 VCs of the real source, sidecar contracts', 'DESIGN 2 C15'),
@@ -67,7 +72,9 @@ CLAIMED = {
             'contracts of add / __getitem__ / __len__ / iteration / _open / _load_trajectory / _open_nc_file / _create_nc_file, '
             'proved by executing the real bodies over a ghost row sequence from an arbitrary well-formed state: symbolic '
             'row count at open time, symbolic number of rows added in the session, arbitrary cache content, nondeterministic '
-            'evictions through the real TrajectoryCache.popitem. Every history of operations follows by induction.',
+            'evictions through the real TrajectoryCache.popitem; several passes over one store at once are independent (iterator over the '
+            '__getitem__ / __len__ contracts). '
+            'Every history of operations follows by induction.',
             'netCDF4 variable indexing (negative = from the current end, IndexError outside), unlimited dimension and '
             'persistence, cachetools.LRUCache eviction, and the value layer (_read_from_nc_var/_write_data, C03) by assumed '
             'contracts; trajectories are opaque records; negative store indices not covered',
@@ -79,7 +86,9 @@ CLAIMED = {
             'symbolic index: length = sum of the parts, i-th trajectory = the corresponding input trajectory, out of range '
             'refused; inputs with different field sets or mixed indexability refused; the merged flight-id index maps every id to '
             'its row shifted by the earlier parts\' sizes. The (file, local row) location arithmetic of _load_trajectory is '
-            'proved separately for an unbounded number of parts from the cumulative-size invariant.',
+            'proved separately for an unbounded number of parts from the cumulative-size invariant. merge() gives back every store it opens '
+            'before it moves the file (ghost handles; precondition of the HDF5 library for renaming). '
+            '',
             'ghost file system / JSON / netCDF models, bisect_left, sorted (ordered permutation), TrajectoryStore.open inside merge '
             'by its contract (C07/C08), value layer by C03; the end-to-end units bound the number of parts to 3 and the per-part '
             'index tables to 2 entries (sizes, indices and ids symbolic)',
@@ -90,6 +99,7 @@ CLAIMED = {
             'stale state handled through _reindex by contract; postcondition: the trajectory added with that id, or None iff '
             'the id was never added. _reindex is proved to build exactly that table (0..3 rows, symbolic ids), add to keep '
             'stores fully identified or not at all and to raise the stale flag, _open to decide indexability from the file, '
+            'a store without an index group (in memory) stays marked stale whatever runs before it is saved; '
             'the in-memory case and the merged index (offsets by earlier parts) have their own units.',
             'bisect_left / sorted by assumed contracts; netCDF and cache models and the value layer as in C07; _reindex and the '
             'merged index units bound the table sizes (3 rows / 2 entries per part)',
@@ -100,7 +110,11 @@ CLAIMED = {
             'a ghost file system in which every file-system call is a step: an OSError is injected at each step in turn and every '
             'validation rule is exercised; at each exit every input is readable from its original path or the merged directory, '
             'metadata.json is present only if the directory is complete, and running merge again succeeds; the same two '
-            'invariants are checked on the on-disk state before every step of a fault-free merge (crash without handlers).',
+            'invariants are checked on the on-disk state before every step of a fault-free merge (crash without handlers). The interruption is '
+            'an OSError, RuntimeError (HDF5 failure), MemoryError, KeyboardInterrupt or SystemExit; a species outside the file of its own '
+            'field set (two files with their own species lists) is refused before anything is counted; merge closes what it opened also when '
+            'refused or interrupted. '
+            '',
             'ghost file system / netCDF / JSON models (one fault per run, rollback steps themselves do not fail); '
             'TrajectoryStore.open inside merge by contract; value layer (_write_data may extend the row before it raises) by '
             'contract from C03; two inputs per merge',
@@ -112,6 +126,8 @@ CLAIMED = {
             'equal, exactly the species that were present (none lost, none invented), only the addressed row written, unset '
             'optional fields read back unset, missing required values refused; _create_dimensions gives the species dimension '
             'exactly the data\'s species; _load_trajectory sizes the trajectory from any per-point field. One obligation is '
+            'create_associated takes the new file\'s species from the first mapped result (unset optional fields allowed); the ghost variable '
+            'masks fill values unless auto-masking was switched off on it (library default). '
             'open and recorded as a known finding (the species dimension is fixed by the first trajectory), hence level other.',
             'netCDF4 variable model (fill value / empty vlen array for unwritten slots, bounds errors) and dtype fidelity by '
             'assumption; the file species list ranges over representative lists (prefix, non-prefix, gap, single late, empty) x '
@@ -125,7 +141,9 @@ CLAIMED = {
             'correction; NO+NO2+HONO = NOx; non-negative) and FOA3 volatile PM are executed symbolically on arrays of symbolic '
             'length and proved equal to spec functions written from the cited equations; so are the BFFM2 HC/CO bilinear fit (slanted / '
             'horizontal segments, SAGE clamping rules, ACRP low-thrust factor, ambient factor; all 63 rule paths) and SCOPE11 (all '
-            'patterns of valid / invalid smoke numbers, both engine kinds, any bypass ratio; non-negative). Bounded part: the MEEM '
+            'patterns of valid / invalid smoke numbers, both engine kinds, any bypass ratio; non-negative); the NOx and HC / CO kernels leave '
+            'their argument arrays and certification tables unchanged (fuel flows of any sign). '
+            'Bounded part: the MEEM '
             'estimate (finite, non-negative, linear in its certification indices) and, again, EI_HCCO / SCOPE11 against independent '
             'reference implementations on sampled data sets.',
             'floats as reals; pow/exp/log10/sqrt uninterpreted with axiom instances (listed in the evidence); np.polyfit(deg 1) = '
@@ -141,7 +159,8 @@ CLAIMED = {
             'once for CO2/H2O by an inductive prefix-sum lemma proved as base + step, NO+NO2+HONO = NOx, SO2+SO4 = SOx, '
             'non-negative), get_LTO_emissions (time in mode x fuel flow, mode zeroing), get_APU_emissions, get_GSE_emissions and '
             'the wiring of compute_emissions (fuel-mass differences, total fuel burn = exactly the switched-on components, '
-            'life-cycle CO2). Options are symbolic; array lengths symbolic.',
+            'life-cycle CO2). Options are symbolic; array lengths symbolic; fuel arrays of float or whole-kilogram integer element type.',
+            #'life-cycle CO2). Options are symbolic; array lengths symbolic.',
             'EI kernels by their C12 contracts (arrays of the trajectory length, non-negative, NOx speciation sums); floats as '
             'reals; np.sum as prefix-sum functions with the induction schema trusted; APU non-negativity under the stated carbon '
             'balance precondition',
